@@ -118,6 +118,13 @@ MappingsIdempotent == (phase = "build") =>
 \* the string-class loop equals its declarative formulation (C02) on every string
 AllowsAgree == (phase = "build") => \A cls \in {"Id", "Ff"} : AllowsScan(W, cls, input) = Allows(W, cls, input)
 
+\* the power law of Profiles.tla on every string of up to three characters, squared and cubed
+PowerLawHolds == (phase = "build" /\ input # <<>> /\ Len(input) <= 3) =>
+  \A pp \in Profs, o \in (Ops \cap ({"prepare", "enforce"} \cup RuleNamesP)), nn \in {2, 3} : PowerLaw(W, pp, o, input, nn)
+
+PadLawHolds == (phase = "build" /\ input # <<>> /\ Len(input) <= 3) =>
+  \A pp \in Profs, o \in (Ops \cap ({"prepare", "enforce"} \cup RuleNamesP)), i \in 0..2, j \in 0..2 : PadLaw(W, pp, o, input, i, j)
+
 \* ---- emission for replay -----------------------------------------------------------
 DevRes == Sem(WDev, p, op, <<input>>)
 Emit == Done => PrintT(<<"REPLAY", ToJson(
